@@ -16,6 +16,8 @@ ASSUMPTIONS = [
     "functions of their arguments). LiteralUnmarshaller is proved by a two-run relational argument instead, assuming "
     "declared literals (int/bool/str/None) never compare equal to a bytes-like object.",
     "Domain: inputs whose class is exactly str/bytes/bytearray/memoryview holding valid UTF-8.",
+    "CastUnmarshaller targets are never a superclass of a carrier class (dispatch order sends str/bytes targets to their "
+    "own routines; text-like Cast targets are Enum mix-ins).",
 ]
 
 
